@@ -30,6 +30,8 @@ func runC08(e *Env) error {
 		"(g) every position of eleven kinds of sequence addressed by a subscript computed in 32 ways (operators, Go int / int64 / float64 variables, set variables, filters, functions, conditionals, text, loop variables, random p + T - T), the access written in every syntactic position, against the element put there; " +
 		"(h) decimals held as text (every 0.00 .. 0.99, grids, signs, exponents, other spellings, 17 digits, random) from eleven sources in every comparison and arithmetic operator and position against strconv.ParseFloat and IEEE arithmetic, validated on number literals and float64 values first; " +
 		"(i) prefix operators (-, +, not, doubled, mixed) in front of subscripted operands (context list, list literal, map, nested list, range(), call results, attribute paths, parenthesised) with literal / computed / string / nested / chained subscripts, followed by nothing, a filter, a binary operator on either side, a comparison, a test or a conditional, in every syntactic position, through the model and against the element put there; " +
+		"(j) integer literals 0..99 and a ladder up to 2^53 written with 0..3 leading zeros, alone, as either operand of every operator, without spaces, as arguments / defaults / subscripts / hash keys / list elements and in every tag, decimal fractions with padded integer part and trailing zeros, random trees with every literal padded, against the base-ten value of the digits; " +
+		"(k) results kept (set variable, list / hash element, conditional arm, macro call defined locally / imported by name / renamed / through a module alias / _self / nested / collected by merge in a loop), every operand then reassigned / shadowed / advanced, finally printed in ten ways, against the value the expression prints on the spot, and arguments of kept calls evaluated exactly once; " +
 		"non-trivial = at least two operators; distinct by source"
 	ctx := map[string]any{"a": 7, "b": 2, "c": 3, "s": "ab", "u": "b", "t": true, "f": false, "l": []interface{}{1, 2, "b"}, "z": 0}
 	atomSets := [][3]GExpr{
@@ -225,6 +227,14 @@ func runC08(e *Env) error {
 	}
 	// (i) prefix operators in front of subscripted operands (c08_prefix.go)
 	if err := c08PrefixSubscripts(e); err != nil {
+		return err
+	}
+	// (j) number literals written with leading / trailing zeros (c08_literals.go)
+	if err := c08LiteralSpellings(e); err != nil {
+		return err
+	}
+	// (k) results kept and used after their operands were reassigned (c08_kept.go)
+	if err := c08KeptValues(e); err != nil {
 		return err
 	}
 	if r.Full() {
